@@ -186,7 +186,7 @@ func c01Exchanges(e *vh.Env, c c01Cfg) []c01Ex {
 		x.Req.BodyLen, x.Req.Chunked, x.Req.ChunkSize = 300, true, 100
 		x.Req.Trailers = [][2]string{{"X-Checksum", "abc"}}
 	})
-	for _, st := range []int{200, 201, 202, 204, 206, 301, 302, 303, 304, 307, 400, 401, 403, 404, 409, 418, 429, 451, 500, 501, 502, 503, 504, 599} {
+	for _, st := range []int{200, 201, 202, 204, 206, 301, 302, 303, 304, 307, 400, 401, 403, 404, 409, 418, 429, 451, 500, 501, 502, 503, 504, 599, 600, 799, 999} {
 		st := st
 		for _, withBody := range []bool{true, false} {
 			withBody := withBody
